@@ -5,10 +5,12 @@
      NV.CramRec.Features   cigar_to_features (io/writer/record/convert.rs), SubstitutionMatrix::find,
                            the sequence and CIGAR reconstruction iterators (record/sequence/iter.rs,
                            record/cigar/iter.rs, TrySimplify)
+     NV.CramRec.Mates      set_mates / write_mate (io/writer/container/slice.rs, slice/records.rs) and
+                           read_mate / resolve_mates / calculate_template_length (io/reader/container/slice.rs)
      NV.CramRec.Container  build_container bookkeeping (io/writer/container.rs), Block::size and
                            write_block (io/writer/container/block.rs), record counters (io/writer.rs) *)
-From Coq Require Import List NArith.
-From NV Require Import CramRec.Features CramRec.FeaturesProofs CramRec.FeaturesTotal CramRec.Container CramRec.ContainerProofs.
+From Coq Require Import List NArith ZArith.
+From NV Require Import CramRec.Features CramRec.FeaturesProofs CramRec.FeaturesTotal CramRec.Container CramRec.ContainerProofs CramRec.Mates CramRec.MatesProofs.
 Import ListNotations.
 Open Scope N_scope.
 
@@ -202,3 +204,97 @@ Example c07_container_nonvacuous :
   | None => False
   end.
 Proof. vm_compute. repeat split; reflexivity. Qed.
+
+(* ------------------------------------------------------------------------------------------ *)
+(* Mate resolution (NV.CramRec.Mates): writer set_mates + write_mate, reader read_mate +        *)
+(* resolve_mates.  [slice_roundtrip_gen repaired] is one slice through both; repaired = false  *)
+(* is the code of /repo ([Mates.mates_repaired]).                                               *)
+
+(* the full statement for the mate columns, NOT proved for slices of more than two records:
+   outside the known class (some chain of the slice is longer than two, or a linked pair is not
+   [pair_consistent]) every record keeps FLAG / RNEXT / PNEXT / TLEN, and a linked pair that is not
+   consistent does not.  [chain_of rs i] = indices of the segmented non-secondary records of the
+   slice that share record i's name. *)
+Definition c07_mates_roundtrip_full_statement : Prop :=
+  forall rs out, Forall fresh rs -> slice_roundtrip rs = MOk out ->
+    let linked i j := (i < j)%nat /\ m_dist (rget (set_mates rs) i) = Some (N.of_nat (j - i - 1)) in
+    (forall i j k, linked i j -> ~ linked j k) ->
+    ((forall i j, linked i j -> pair_consistent (rget rs i) (rget rs j) = true) <->
+     map mate_view out = map mate_view rs).
+
+(* every record that set_mates leaves detached - in any slice, next to any chains - is read back
+   as stored: FLAG, RNEXT, PNEXT and TLEN are the written ones (both writers) *)
+Theorem c07_mates_detached_record_preserved_partial : forall rep rs out x,
+  Forall fresh rs ->
+  slice_roundtrip_gen rep rs = MOk out ->
+  (x < length rs)%nat ->
+  m_detached (rget (set_mates_gen rep rs) x) = true ->
+  rget out x = rget (set_mates_gen rep rs) x /\
+  mate_view (rget out x) = mate_view (rget rs x).
+Proof. exact detached_record_preserved. Qed.
+Print Assumptions c07_mates_detached_record_preserved_partial.
+
+(* what set_mates establishes in every slice: same length; a detached record has no mate distance;
+   a mate distance comes with MATE_IS_DOWNSTREAM on an attached record and points at an attached
+   record inside the slice (so the reader's "invalid mate distance" check never fires on written
+   files); FLAG / names / positions / mate fields / TLEN are not modified *)
+Theorem c07_set_mates_wellformed : forall rep rs, Forall fresh rs ->
+  length (set_mates_gen rep rs) = length rs /\ linked_wf (set_mates_gen rep rs) /\
+  forall x, mate_view (rget (set_mates_gen rep rs) x) = mate_view (rget rs x).
+Proof.
+  intros rep rs H. destruct (set_mates_gen_wf rep rs H) as [A B].
+  split; [exact A|]. split; [exact B|]. intro x. apply set_mates_gen_view.
+Qed.
+Print Assumptions c07_set_mates_wellformed.
+
+(* a slice of two records that share a name (both segmented, not secondary): the reader returns
+   exactly the recomputed columns, and they are the written ones iff the pair is pair_consistent -
+   the decidable description of the class cram-intra-slice-mate-fields-recomputed for a pair *)
+Theorem c07_mates_linked_pair_roundtrip_partial : forall a b,
+  fresh a -> fresh b -> eligible a = true -> eligible b = true ->
+  oname_eqb (m_name a) (m_name b) = true ->
+  exists a' b', slice_roundtrip_gen false [a; b] = MOk [a'; b'] /\
+    mate_view a' = (m_flags (set_mate a b), m_ref b, m_start b, tlen_calc b a) /\
+    mate_view b' = (m_flags (set_mate b a), m_ref a, m_start a, (- tlen_calc b a)%Z) /\
+    ((mate_view a' = mate_view a /\ mate_view b' = mate_view b) <-> pair_consistent a b = true).
+Proof. exact linked_pair_roundtrip. Qed.
+Print Assumptions c07_mates_linked_pair_roundtrip_partial.
+
+(* with the repaired set_mates every two-record slice keeps its mate columns *)
+Theorem c07_mates_repaired_pair_roundtrip_partial : forall a b out,
+  fresh a -> fresh b ->
+  slice_roundtrip_gen true [a; b] = MOk out ->
+  map mate_view out = [mate_view a; mate_view b].
+Proof. exact repaired_pair_roundtrip. Qed.
+Print Assumptions c07_mates_repaired_pair_roundtrip_partial.
+
+(* the recomputed template length is symmetric, never negative and saturates at i32::MAX
+   (/repo 8fd0898) *)
+Theorem c07_template_length_range : forall r m,
+  (0 <= tlen_calc r m <= 2147483647)%Z /\ tlen_calc r m = tlen_calc m r.
+Proof. intros r m. split; [apply tlen_calc_range|apply tlen_calc_sym]. Qed.
+Print Assumptions c07_template_length_range.
+
+(* the current writer violates the round trip on a pair whose TLEN is not the recomputed one *)
+Theorem c07_mates_refuted : exists a b out,
+  fresh a /\ fresh b /\ slice_roundtrip_gen false [a; b] = MOk out /\
+  map mate_view out <> [mate_view a; mate_view b].
+Proof.
+  exists (mk_mrec 65 (Some [113]) (Some 0) (Some 10) 5 [] (Some 0) (Some 30) 0%Z false false None),
+         (mk_mrec 129 (Some [113]) (Some 0) (Some 30) 5 [] (Some 0) (Some 10) 0%Z false false None).
+  eexists. split; [repeat split|]. split; [repeat split|]. split; [vm_compute; reflexivity|].
+  vm_compute. discriminate.
+Qed.
+Print Assumptions c07_mates_refuted.
+
+(* non-vacuity: a consistent pair next to a detached single record reads back unchanged *)
+Example c07_mates_nonvacuous :
+  let a := mk_mrec 97 (Some [113]) (Some 0) (Some 10) 5 [] (Some 0) (Some 30) 25%Z false false None in
+  let b := mk_mrec 145 (Some [113]) (Some 0) (Some 30) 5 [] (Some 0) (Some 10) (-25)%Z false false None in
+  let c := mk_mrec 0 (Some [114]) (Some 0) (Some 12) 7 [] None None 0%Z false false None in
+  pair_consistent a b = true /\
+  match slice_roundtrip [a; c; b] with
+  | MOk out => map mate_view out = map mate_view [a; c; b]
+  | _ => False
+  end.
+Proof. vm_compute. split; reflexivity. Qed.
